@@ -495,6 +495,8 @@ def main(argv=None):
             "discharged_only_with_solver_quantifier_instantiation": sorted({strip_path(o["name"]) for o in proved if "native quantifier" in (o.get("reason") or "")})[:60],
             "cvc5_cross_check_of_discharged_VCs": dict(cross),
             "max_obligation_time_s": max([o.get("time", 0) or 0 for o in obligations] + [0]),
+            "slowest_obligations": [{"name": o["name"][:200], "status": o["status"], "time_s": round(o.get("time", 0) or 0, 2)}
+                                    for o in sorted(obligations, key=lambda o_: -(o_.get("time", 0) or 0))[:5] if (o.get("time", 0) or 0) >= 5],
             "checker_cmd": f"./check {prop} --tier {tier}",
             "trusted_base": TRUSTED_BASE,
             "functions_under_contract": functions,
